@@ -35,6 +35,8 @@ impl Out {
 #[derive(Default)]
 pub struct Session {
     pub crdt: engines::crdt::CrdtSession,
+    #[cfg(feature = "e_capi")]
+    pub capi: engines::capi::CapiSession,
     #[cfg(feature = "e_sync")]
     pub sync: engines::sync::SyncSession,
 }
@@ -77,7 +79,7 @@ pub fn exec_line(sess: &mut Session, line: &str, out: &mut Out) -> Vec<String> {
 }
 
 fn main() {
-    std::panic::set_hook(Box::new(|_| {}));
+    if std::env::var("AMH_VERBOSE").is_err() { std::panic::set_hook(Box::new(|_| {})); }
     let args: Vec<String> = std::env::args().collect();
     let stdout = std::io::stdout();
     let mut out = Out {
